@@ -54,6 +54,13 @@ def rdm_propagate_repeat(cx, kind, first_nref):
     cx.prove_eq(label, second, fresh, tol=1e-9)
     if first_nref == 1:
         cx.prove_eq("first_equals_fresh", first, fresh)
+    else:
+        # the same refined call twice on one propagator, and on a fresh one
+        p2 = ReducedDensityMatrixPropagator(time, ham, RTensor=RT)
+        r1 = p2.propagate(rhoi, method="short-exp-2", Nref=first_nref).data.copy()
+        r2 = p2.propagate(rhoi, method="short-exp-2", Nref=first_nref).data.copy()
+        cx.prove_eq("refined_repeat", r2, r1, tol=1e-9)
+        cx.prove_eq("refined_first_equals_fresh", first, r1, tol=1e-9)
 
 
 @harness("C15", "other_propagators_repeat",
